@@ -32,7 +32,7 @@ def build(d):
     if nodes is None:
         return {"discard": state}
     spec = projgen.gen_project(d, nodes, state, pep_shaped=pep, max_files=3, max_patterns=3, unicode_text=True,
-                               regimes=["lf", "crlf", "cr", "mixed"], allow_partial=True)
+                               regimes=["lf", "crlf", "cr", "mixed"], allow_partial=True, nested=True)
     flags, date = projgen.gen_bump(d, nodes, state)
     return {"spec": spec, "flags": flags, "date": date, "ascii_locale": d.chance(1, 48), "msg": d.choice(["bump", "bump ✓ → {new_version}", "Ünïcode"])}
 
@@ -63,6 +63,8 @@ def check(case):
     no_final = any(f["seps"][-1] == "" for f in spec["files"])
     nt = nonascii or bool(regimes - {"lf"}) or no_final
     classes = ["regime:" + r for r in sorted(regimes)]
+    if any(p.get("nested") for p in spec["patterns"]):
+        classes.append("pattern-nested-in-another-patterns-occurrence")
     if nonascii:
         classes.append("non-ascii")
     if no_final:
